@@ -112,7 +112,15 @@ class TaskScheduler(object):
                 self._schedule_batch(task.batch)
                 self._tasks.pop()
             else:
-                task._compute()
+                try:
+                    task._compute()
+                except Exception:
+                    # A lazily computed Future stores the error of its provider and re-raises it. The
+                    # error is thrown into the tasks awaiting the future when they are resumed, so it
+                    # must not escape the scheduler here (that would bypass their try/except and leave
+                    # the task stack dirty).
+                    if not task.is_computed():
+                        raise
                 self._tasks.pop()
 
     def _schedule_batch(self, batch):
